@@ -2,7 +2,7 @@
 From Coq Require Import List ZArith NArith Bool String.
 Import ListNotations.
 From DD Require Import Base.Sx Base.PyStr Base.Value Diff.Tree Diff.DiffModel Diff.DiffShow
-  Path.PathModel Filter.FilterModel Filter.FilterModelV.
+  Path.PathModel Filter.FilterModel Filter.FilterModelV Filter.FilterProofs Filter.FilterWitness Filter.FilterInclude Filter.FilterGuard Filter.FilterExact Filter.FilterIndep Filter.FilterIndepG Filter.FilterExactD.
 Local Open Scope string_scope.
 
 (* the reported levels of a run (sorted; the recorded opcode paths are C01's business) *)
@@ -33,3 +33,30 @@ Definition c13_case_v (ud : list (pystr * pystr * pystr)) (ot : list (path * lis
     (TY : list ty) (cbt cbst : list value) (icbt icbst : option (list value)) (c : cfg) (t1 t2 : value) : sx :=
   sx_entries (run_full hatom_simple (tbl_udiff ud) (tbl_ops ot) (tbl_paths rxt) (tbl_hits rxht) ex inc
                 TY (tbl_values cbt) (tbl_values cbst) (option_map tbl_values icbt) (option_map tbl_values icbst) c t1 t2).
+
+(* the hypotheses of the guarded theorems evaluated on the inputs of real runs:
+   C13_exclude_threshold_exact - the Coq boolean [xguard] must equal "the filter equation holds on the implementation";
+   C13_include_guarded - [iguard] (with the key guards) must imply it *)
+Definition c13_xguard (rxt : list path) (ex : list pystr) (c : cfg) (t1 t2 : value) : sx :=
+  sx_bool (xguard (excluded (tbl_paths rxt) ex) (excl_this (add_root_to_paths ex)) c t1 t2).
+Definition c13_iguard_implies (Q : list path) (c : cfg) (t1 t2 : value) (equation_holds : bool) : sx :=
+  sx_bool (negb (forallb (forallb qkey) Q && (forallb (forallb str_key) Q || forallb (forallb nodigit_key) Q) &&
+                 keys_all ok_atom t1 && keys_all ok_atom t2 && iguard Q c t1 t2)
+           || equation_holds).
+
+(* C13_exclude_independent_guarded: its hypotheses (alias-free keys, the guard on both pairs, equal prunings - with the
+   skipped content blanked, or at threshold 0 deleted) must imply "the two real runs report the same (kind, path, path) list" *)
+Definition c13_indep_implies (rxt : list path) (ex : list pystr) (c : cfg) (t1 t2 t1b t2b : value) (same : bool) : sx :=
+  let P := excluded (tbl_paths rxt) ex in
+  let E := excl_this (add_root_to_paths ex) in
+  let hyp := fun del : bool =>
+    (negb del || Nat.eqb (thr_num c) 0) && mguard0 del P E c t1 t2 && mguard0 del P E c t1b t2b &&
+    value_eqb (prune del P [] t1) (prune del P [] t1b) && value_eqb (prune del P [] t2) (prune del P [] t2b) in
+  sx_bool (negb (keys_all key_plain t1 && keys_all key_plain t2 && keys_all key_plain t1b && keys_all key_plain t2b &&
+                 (hyp false || hyp true)) || same).
+
+(* C13_exclude_threshold_exact_any_mode on a real run in ANY mode: [lguard] implies ([xguard] = "the equation holds") *)
+Definition c13_xguard_any (rxt : list path) (ex : list pystr) (c : cfg) (t1 t2 : value) (equation_holds : bool) : sx :=
+  let P := excluded (tbl_paths rxt) ex in
+  let E := excl_this (add_root_to_paths ex) in
+  sx_bool (negb (lguard P E c t1 t2) || Bool.eqb (xguard P E c t1 t2) equation_holds).
